@@ -11,7 +11,7 @@ from __future__ import annotations
 
 import ast
 from fractions import Fraction
-from typing import Dict, List, Optional, Tuple
+from typing import Dict, List, Optional, Set, Tuple
 
 from ..cfg import enumerate_paths, RETURN
 from ..domains.affine import Affine, AffineEval, Scalar
@@ -286,6 +286,8 @@ def run(idx: ProgramIndex, rep: Report, tier: str):
     carried_factor(idx, rep, M)
     constructor_broadcasts(idx, rep, M)
     positional_dims_on_full_batch(idx, rep, M)
+    kl_assembly(idx, rep)
+    conditional_attributes(idx, rep)
 
 
 # ---- C10-5: a Cholesky factor carried over into a new distribution ------------------------------------------------------
@@ -499,3 +501,269 @@ def positional_dims_on_full_batch(idx: ProgramIndex, rep: Report, M):
                 "the factor is expanded to the batch shape before positions are applied" if not probs else
                 "; ".join(sorted(probs)) + ": for a dense distribution whose covariance has fewer batch dimensions than its mean the new dimension lands in the wrong place (wrong batch shape, or an exception)", {})
     rep.floor("C10-7", "positional operations on the un-broadcast factor", n, 1)
+
+
+# ---- C10-8 ---------------------------------------------------------------------------------------------------------
+def kl_assembly(idx: ProgramIndex, rep: Report):
+    """KL(p || q) of two Gaussians = 1/2 [ log|S_q| - log|S_p| - k + tr(S_q^-1 S_p) + (m_p - m_q)^T S_q^-1 (m_p - m_q) ].  The registered
+    kl_mvn_mvn is inlined path by path and its result must be 1/2 of the sum of exactly these terms, each recognised by provenance:
+      +  log|S_q|  : second output of  S_q.inv_quad_logdet(..., logdet=True)  (or S_q.logdet())
+      -  log|S_p|  : S_p.logdet()  -  or twice the summed log-diagonal of a CHOLESKY factor of S_p (a general root is not triangular)
+      +  trace + quadratic form : first output of S_q.inv_quad_logdet(inv_quad_rhs = [m_p - m_q | R_p]) with R_p a root of S_p
+      -  k         : the event size
+    The values of the terms are numerical and not decided; what is decided is that the right operator's determinant / solve enters with
+    the right sign."""
+    from ..symbolic import inline, walk_paths
+    rep.rule("C10-8", "kl_mvn_mvn is 1/2 [log|S_q| - log|S_p| - k + tr(S_q^-1 S_p) + quadratic form]: each term recognised by provenance (determinant of the right covariance, solve against S_q, root of S_p, event size), signs and the factor 1/2 by affine evaluation")
+    fi = idx.function(MOD, "kl_mvn_mvn")
+    pd, qd = fi.params[0], fi.params[1]
+
+    def strip(e: ast.AST) -> ast.AST:
+        while True:
+            if isinstance(e, ast.Call) and isinstance(e.func, ast.Attribute) and e.func.attr in ("to_dense", "expand", "evaluate_kernel", "contiguous") :
+                e = e.func.value
+            else:
+                return e
+
+    def cov_of(e: ast.AST) -> Optional[str]:
+        e = strip(e)
+        if isinstance(e, ast.Attribute) and e.attr in ("lazy_covariance_matrix", "covariance_matrix"):
+            b = strip(e.value)
+            if isinstance(b, ast.Name) and b.id in (pd, qd):
+                return "p" if b.id == pd else "q"
+        return None
+
+    def mean_of(e: ast.AST) -> Optional[str]:
+        e = strip(e)
+        if isinstance(e, ast.Attribute) and e.attr in ("loc", "mean"):
+            b = strip(e.value)
+            if isinstance(b, ast.Name) and b.id in (pd, qd):
+                return "p" if b.id == pd else "q"
+        return None
+
+    def is_mean_diff(e: ast.AST) -> bool:
+        e = strip(e)
+        if isinstance(e, ast.Call) and isinstance(e.func, ast.Attribute) and e.func.attr == "unsqueeze":
+            e = e.func.value
+        return isinstance(e, ast.BinOp) and isinstance(e.op, ast.Sub) and {mean_of(e.left), mean_of(e.right)} == {"p", "q"}
+
+    def root_of_p(e: ast.AST) -> Optional[str]:
+        """'root' / 'cholesky' of S_p, or None"""
+        e = strip(e)
+        if isinstance(e, ast.Attribute) and e.attr == "root" and isinstance(e.value, ast.Call) and isinstance(e.value.func, ast.Attribute) and e.value.func.attr == "root_decomposition" and cov_of(e.value.func.value) == "p":
+            return "root"
+        if isinstance(e, ast.Call) and isinstance(e.func, ast.Attribute) and e.func.attr == "cholesky" and cov_of(e.func.value) == "p":
+            return "cholesky"
+        if isinstance(e, ast.Call) and (chain(e.func) or "").split(".")[-1] == "psd_safe_cholesky" and e.args and cov_of(e.args[0]) == "p":
+            return "cholesky"
+        return None
+
+    def atom(e: ast.AST) -> Tuple[Fraction, str]:
+        """(coefficient, name of the term)"""
+        e0 = e
+        if isinstance(e, ast.UnaryOp) and isinstance(e.op, ast.USub):
+            c, a = atom(e.operand)
+            return -c, a
+        if isinstance(e, ast.Call) and isinstance(e.func, ast.Attribute) and e.func.attr in ("mul", "mul_") and len(e.args) == 1:
+            k = _num(e.args[0])
+            if k is not None:
+                c, a = atom(e.func.value)
+                return c * k, a
+        if isinstance(e, ast.BinOp) and isinstance(e.op, ast.Mult):
+            for x, y in ((e.left, e.right), (e.right, e.left)):
+                k = _num(x)
+                if k is not None:
+                    c, a = atom(y)
+                    return c * k, a
+        if isinstance(e, ast.Call) and isinstance(e.func, ast.Name) and e.func.id == "float" and len(e.args) == 1:
+            return atom(e.args[0])
+        # the event size
+        if isinstance(e, ast.Call) and isinstance(e.func, ast.Attribute) and e.func.attr == "size" and len(e.args) == 1 and src(e.args[0]) == "-1" and (is_mean_diff(e.func.value) or mean_of(e.func.value)):
+            return Fraction(1), "k"
+        if isinstance(e, ast.Subscript) and src(e.slice) == "-1" and isinstance(e.value, ast.Attribute) and e.value.attr in ("event_shape", "shape") :
+            return Fraction(1), "k"
+        # determinants
+        if isinstance(e, ast.Call) and isinstance(e.func, ast.Attribute) and e.func.attr == "logdet" and not e.args:
+            w = cov_of(e.func.value)
+            return Fraction(1), ("logdet_%s" % w if w else "logdet of `%s`" % norm(e.func.value)[:40])
+        # outputs of inv_quad_logdet
+        if isinstance(e, ast.Subscript) and isinstance(e.slice, ast.Constant) and e.slice.value in (0, 1) and isinstance(e.value, ast.Call) and isinstance(e.value.func, ast.Attribute) and e.value.func.attr == "inv_quad_logdet":
+            c = e.value
+            w = cov_of(c.func.value)
+            kw = {k.arg: k.value for k in c.keywords}
+            if e.slice.value == 1:
+                on = isinstance(kw.get("logdet"), ast.Constant) and kw["logdet"].value is True
+                return Fraction(1), ("logdet_%s" % w if w and on else "second output of inv_quad_logdet without logdet=True")
+            rhs = kw.get("inv_quad_rhs", c.args[0] if c.args else None)
+            ok = False
+            if w == "q" and isinstance(rhs, ast.Call) and chain(rhs.func) == "torch.cat" and rhs.args and isinstance(rhs.args[0], (ast.List, ast.Tuple)) and len(rhs.args[0].elts) == 2:
+                a_, b_ = rhs.args[0].elts
+                ok = (is_mean_diff(a_) and root_of_p(b_) is not None) or (is_mean_diff(b_) and root_of_p(a_) is not None)
+            return Fraction(1), ("trace_quad" if ok else "inv_quad of `%s` against `%s`" % (w or "?", norm(rhs)[:50] if rhs is not None else "?"))
+        # twice the summed log-diagonal of a factor
+        x = e
+        had = set()
+        while isinstance(x, ast.Call) and isinstance(x.func, ast.Attribute) and x.func.attr in ("sum", "log", "abs", "diagonal", "diag"):
+            had.add(x.func.attr)
+            x = x.func.value
+        if {"sum", "log"} <= had and ("diagonal" in had or "diag" in had):
+            kind = root_of_p(x)
+            if kind == "cholesky":
+                return Fraction(1, 2), "logdet_p"
+            return Fraction(1), ("summed log-diagonal of `%s`, which is not known to be triangular (a root of S_p from root_decomposition() may be a general or rectangular factor: its diagonal says nothing about |S_p|)" % norm(x)[:50]
+                                 if kind == "root" else "summed log-diagonal of `%s`" % norm(x)[:40])
+        return Fraction(1), "`%s`" % norm(e0)[:50]
+
+    def _num(e: ast.AST) -> Optional[Fraction]:
+        if isinstance(e, ast.Constant) and isinstance(e.value, (int, float)) and not isinstance(e.value, bool):
+            return Fraction(e.value).limit_denominator(1000)
+        if isinstance(e, ast.UnaryOp) and isinstance(e.op, ast.USub):
+            v = _num(e.operand)
+            return None if v is None else -v
+        return None
+
+    def terms(e: ast.AST, coef: Fraction) -> List[Tuple[Fraction, str]]:
+        if isinstance(e, ast.BinOp) and isinstance(e.op, (ast.Add, ast.Sub)):
+            return terms(e.left, coef) + terms(e.right, coef if isinstance(e.op, ast.Add) else -coef)
+        if isinstance(e, ast.BinOp) and isinstance(e.op, ast.Mult):
+            for x, y in ((e.left, e.right), (e.right, e.left)):
+                k = _num(x)
+                if k is not None:
+                    return terms(y, coef * k)
+        if isinstance(e, ast.BinOp) and isinstance(e.op, ast.Div) and _num(e.right) not in (None, 0):
+            return terms(e.left, coef / _num(e.right))
+        if isinstance(e, ast.Call) and isinstance(e.func, ast.Name) and e.func.id == "sum" and len(e.args) == 1 and isinstance(e.args[0], (ast.List, ast.Tuple)):
+            out = []
+            for x in e.args[0].elts:
+                out += terms(x, coef)
+            return out
+        c, a = atom(e)
+        return [(coef * c, a)]
+
+    want = {"logdet_q": Fraction(1, 2), "logdet_p": Fraction(-1, 2), "trace_quad": Fraction(1, 2), "k": Fraction(-1, 2)}
+    probs = set()
+    npaths = 0
+    for path, seq in walk_paths(fi):
+        if path.outcome != "return" or path.end is None or getattr(path.end, "value", None) is None:
+            continue
+        env = {}
+        for st, e_ in seq:
+            if st is path.end:
+                env = e_
+        r = inline(path.end.value, env)
+        npaths += 1
+        got: Dict[str, Fraction] = {}
+        for c, a in terms(r, Fraction(1)):
+            got[a] = got.get(a, Fraction(0)) + c
+        got = {k: v for k, v in got.items() if v != 0}
+        if got != want:
+            extra = ["%s%s * %s" % ("+" if v > 0 else "", v, k) for k, v in sorted(got.items()) if want.get(k) != v]
+            missing = [k for k in want if k not in got]
+            probs.add("the result contains %s%s" % ("; ".join(extra)[:300], (" and lacks " + ", ".join(missing)) if missing else ""))
+    rep.add("C10-8", "%s:kl_mvn_mvn" % fi.module.name, fi.where, npaths > 0 and not probs,
+            "1/2 [logdet(S_q) - logdet(S_p) + trace/quadratic form of S_q^-1 against [m_p - m_q | root of S_p] - k] on %d returning path(s)" % npaths if npaths > 0 and not probs else "; ".join(sorted(probs)) or "no returning path", {})
+    rep.floor("C10-8", "KL assembly", 1, 1)
+
+
+# ---- C10-9 ---------------------------------------------------------------------------------------------------------
+def conditional_attributes(idx: ProgramIndex, rep: Report):
+    """MultivariateNormal keeps two representations: attributes that __init__ assigns only under `if self._islazy` exist only for lazily
+    represented covariances.  Every read of such an attribute in the class hierarchy must sit under a test of the same condition (or of a
+    property that returns it); everything else goes through the accessor that knows both representations (lazy_covariance_matrix)."""
+    rep.rule("C10-9", "attributes that the constructor assigns only for one representation (under `if self._islazy`) are read only under a test of that condition: methods of the distribution hierarchy work for dense and lazy covariances alike")
+    M = idx.cls(MOD, "MultivariateNormal")
+    init = idx.method(M, "__init__", own=True)
+    sn = init.params[0]
+    cond_attrs: Dict[str, str] = {}
+
+    cov_param = "covariance_matrix"
+    if cov_param not in init.params:
+        raise AnalysisError("C10-9: MultivariateNormal.__init__ has no covariance_matrix parameter (anchor vanished)")
+
+    def assigned(stmts, only_representation=False) -> Set[str]:
+        out = set()
+        for st in stmts:
+            for a in ast.walk(st):
+                if isinstance(a, ast.Assign):
+                    for t in a.targets:
+                        if isinstance(t, ast.Attribute) and chain(t.value) == sn:
+                            # the representation of the covariance: the value is (derived from) the covariance argument; everything else
+                            # (loc, _validate_args, ...) is what torch's own constructor provides in the other branch
+                            if only_representation and not any(isinstance(x, ast.Name) and x.id == cov_param for x in ast.walk(a.value)):
+                                continue
+                            out.add(t.attr)
+        return out
+    everywhere = set()
+    for st in body_without_docstring(init.node):
+        if isinstance(st, ast.If):
+            b, o = assigned(st.body, only_representation=True), assigned(st.orelse)
+            for a_ in b - o:
+                cond_attrs[a_] = norm(st.test)
+        else:
+            everywhere |= assigned([st])
+    cond_attrs = {k: v for k, v in cond_attrs.items() if k not in everywhere and not k.startswith("__") and not k.startswith("_MultivariateNormal__")}
+    if not cond_attrs:
+        raise AnalysisError("C10-9: MultivariateNormal.__init__ no longer assigns an attribute for one representation only (anchor vanished)")
+    n = 0
+    seen_keys = set()
+    classes = [M] + list(idx.subclasses(M))
+    for attr, cond in sorted(cond_attrs.items()):
+        # equivalent tests: the condition itself and properties that return it
+        equiv = {cond}
+        for name, m in M.all_methods().items():
+            if m.kind == "property":
+                rets = [r.value for r in ast.walk(m.node) if isinstance(r, ast.Return) and r.value is not None]
+                if rets and all(norm(r) == cond for r in rets):
+                    equiv.add("%s.%s" % (sn, name))
+        for cls in sorted(classes, key=lambda c: c.qualname):
+            for name, m in sorted(cls.methods.items()):
+                if m is init:
+                    continue
+                me = m.params[0] if m.params else None
+                for x in ast.walk(m.node):
+                    if not (isinstance(x, ast.Attribute) and x.attr == attr and isinstance(x.value, ast.Name) and x.value.id == me and isinstance(x.ctx, ast.Load)):
+                        continue
+                    key = (cls.qualname, name, attr)
+                    if key in seen_keys:
+                        continue
+                    seen_keys.add(key)
+                    n += 1
+                    tests = []
+                    for t, br in _tests_around(m.node, x):
+                        while isinstance(t, ast.UnaryOp) and isinstance(t.op, ast.Not):
+                            t, br = t.operand, not br
+                        if br:
+                            tests.append(norm(t).replace(me + ".", sn + "."))
+                    ok = any(t in equiv for t in tests)
+                    rep.add("C10-9", "%s:%s.%s[reads self.%s]" % (cls.module.name, cls.qualname, name, attr), "%s:%d" % (m.module.relpath, x.lineno), ok,
+                            "read under `%s`" % sorted(equiv)[0] if ok else
+                            "self.%s is assigned by MultivariateNormal.__init__ only under `%s` (lazily represented covariances); %s.%s reads it without that test: for a distribution built from a plain tensor the attribute does not exist (AttributeError)" % (attr, cond, cls.qualname, name), {})
+    rep.floor("C10-9", "reads of representation-specific attributes", n, 4)
+
+
+def _tests_around(fn: ast.AST, target: ast.AST):
+    """[(test, in_true_branch)] of the enclosing if statements / conditional expressions"""
+    out = []
+
+    def rec(node, acc) -> bool:
+        if node is target:
+            out.extend(acc)
+            return True
+        if isinstance(node, ast.If):
+            if rec(node.test, acc):
+                return True
+            for st in node.body:
+                if rec(st, acc + [(node.test, True)]):
+                    return True
+            for st in node.orelse:
+                if rec(st, acc + [(node.test, False)]):
+                    return True
+            return False
+        if isinstance(node, ast.IfExp):
+            return rec(node.test, acc) or rec(node.body, acc + [(node.test, True)]) or rec(node.orelse, acc + [(node.test, False)])
+        for ch in ast.iter_child_nodes(node):
+            if rec(ch, acc):
+                return True
+        return False
+    rec(fn, [])
+    return out
